@@ -555,11 +555,97 @@ func scenarioTransport(proto string, workers, queue, n, trial int) {
 	run.Distinct(fmt.Sprintf("E|%s|w%d|q%d|n%d", proto, workers, queue, n))
 }
 
+// scenarioFirstRequests: the very first requests a server sees arrive at the same moment on many
+// connections (all connections are open and idle before; the writers leave a barrier together).
+// Whatever the handler does to get at its pool the first time, the bound is the configured one:
+// with every invocation gated, at most MaxInvoke are inside Invoke; afterwards each request has
+// been handled exactly once.
+func scenarioFirstRequests(workers, queue, conns, perConn, trial int) {
+	p := &gateProto{count: map[uint32]int{}, gate: make(chan struct{})}
+	conf := netlab.DefaultServerConf("tcp")
+	conf.MaxInvoke = int32(workers)
+	conf.QueueCap = queue
+	if _, err := netlab.StartServer(p, conf); err != nil {
+		run.Inconclusive("first-requests scenario: cannot start server")
+		return
+	}
+	cs := make([]net.Conn, 0, conns)
+	defer func() {
+		for _, c := range cs {
+			c.Close()
+		}
+	}()
+	for i := 0; i < conns; i++ {
+		c, err := net.DialTimeout("tcp", conf.Address, 3*time.Second)
+		if err != nil {
+			run.Inconclusive("first-requests scenario: dial failed")
+			return
+		}
+		cs = append(cs, c)
+	}
+	time.Sleep(10 * time.Millisecond) // every connection accepted, every receive loop waiting
+	n := conns * perConn
+	start := make(chan struct{})
+	var wg sync.WaitGroup
+	for ci, c := range cs {
+		wg.Add(1)
+		go func(ci int, c net.Conn) {
+			defer wg.Done()
+			frames := []byte{}
+			for k := 0; k < perConn; k++ {
+				b := make([]byte, 4)
+				binary.BigEndian.PutUint32(b, uint32(ci*perConn+k))
+				frames = append(frames, netlab.Frame(b)...)
+			}
+			<-start
+			c.Write(frames)
+		}(ci, c)
+	}
+	close(start)
+	wg.Wait()
+	time.Sleep(time.Duration(20+trial%20) * time.Millisecond)
+	p.mu.Lock()
+	entered := 0
+	for _, k := range p.count {
+		entered += k
+	}
+	p.mu.Unlock()
+	run.Max("max_parallelism_seen_first_requests", int64(entered))
+	wit := map[string]interface{}{"scenario": "first-requests", "workers": workers, "queue": queue, "connections": conns, "requests": n, "running_at_once": entered}
+	if entered > workers {
+		run.Violation("parallelism-exceeded", "transport-first-requests", fmt.Sprintf("tcp server (MaxInvoke=%d, QueueCap=%d): %d handlers were running at the same time when the first requests of %d connections arrived together", workers, queue, entered, conns), wit)
+		close(p.gate)
+		return
+	}
+	close(p.gate)
+	ok := waitUntil(func() bool {
+		p.mu.Lock()
+		defer p.mu.Unlock()
+		return len(p.count) >= n
+	}, 5*time.Second)
+	p.mu.Lock()
+	defer p.mu.Unlock()
+	wit["handled"] = len(p.count)
+	if !ok {
+		run.Violation("job-lost", "transport-first-requests", fmt.Sprintf("tcp server (MaxInvoke=%d, QueueCap=%d): %d of %d first requests of %d connections were never handled", workers, queue, n-len(p.count), n, conns), wit)
+		return
+	}
+	for id, k := range p.count {
+		if k != 1 {
+			run.Violation("job-executed-not-once", "transport-first-requests", fmt.Sprintf("request %d handled %d times", id, k), wit)
+			return
+		}
+	}
+	run.Eval(1)
+	run.Add("jobs_observed", int64(n))
+	run.Distinct(fmt.Sprintf("F|w%d|q%d|c%d|k%d", workers, queue, conns, perConn))
+}
+
 func main() {
 	appchild.MaybeChild()
 	run = vlib.Start("C19")
 	rogger.SetLevel(rogger.OFF)
-	run.SetRule("configurations workers{1,2,8,64} x queue{0,1,16,1024} x submitters{1,8,64}; scenarios: A throughput (every job once, gauge<=workers, idle Release returns, no goroutine left), B capacity (workers+1+queue gated submissions complete without a gate opening), C Release with gated running jobs and 0/1/many backlog (stamp order), D Release racing with submitters, E bursts of requests into real TCP/UDP servers whose pool (MaxInvoke 1..4, QueueCap 0..2) is saturated by gated handlers (the receive loop is the submitter: block, never drop; at most MaxInvoke handlers at the gate). A case is (scenario, configuration, observed high-water mark / executed count); distinct by that key.")
+	run.SetRule("configurations workers{1,2,8,64} x queue{0,1,16,1024} x submitters{1,8,64}; scenarios: A throughput (every job once, gauge<=workers, idle Release returns, no goroutine left), B capacity (workers+1+queue gated submissions complete without a gate opening), C Release with gated running jobs and 0/1/many backlog (stamp order), D Release racing with submitters, E bursts of requests into real TCP/UDP servers whose pool (MaxInvoke 1..4, QueueCap 0..2) is saturated by gated handlers (the receive loop is the submitter: block, never drop; at most MaxInvoke handlers at the gate), F the first requests of a fresh TCP server arriving together on 16..48 idle connections (same bound, each handled once). A case is (scenario, configuration, observed high-water mark / executed count); distinct by that key.")
 	run.Assume("jobs still queued when Release is called may be dropped (the property speaks about an unreleased pool)")
 	run.Assume("goroutine accounting: Release 'stops all workers' is observed as runtime.NumGoroutine returning to its value before NewPool (polled up to 5 s)")
 	reps := run.Pick(1, 12)
@@ -634,6 +720,12 @@ func main() {
 			}
 		}
 	}
+	for rep := 0; rep < run.Pick(6, 60); rep++ {
+		wq := [][2]int{{1, 1}, {2, 0}, {2, 4}, {4, 2}}[rep%4]
+		trial++
+		scenarioFirstRequests(wq[0], wq[1], []int{16, 48, 32}[rep%3], 1+rep%2, trial)
+	}
+	run.Sample(map[string]interface{}{"scenario": "F first-requests", "config": "tcp MaxInvoke=2 QueueCap=0, 48 idle connections", "events": "all writers leave one barrier; every Invoke gated; number inside Invoke <= MaxInvoke; gates opened; each request handled once"})
 	run.Sample(map[string]interface{}{"scenario": "C release-with-running-jobs", "config": "workers=2 queue=16", "events": "submit 2 gated + 1 held by dispatcher + 4 queued; Release called; gates opened; stamps: end(job0), end(job1) < return(Release); no start stamp after it"})
 	run.Sample(map[string]interface{}{"scenario": "B capacity", "config": "workers=8 queue=1", "events": "10 gated submissions complete with all gates closed; gauge high-water 8"})
 	run.Set("logical_clock_events", clock.Load())
